@@ -954,7 +954,9 @@ func (w *world) randomKernelRoute(label string) (netlink.Route, bool) {
 	// through an existing link
 	var names []string
 	for _, n := range w.devices {
-		if w.link(n) != nil {
+		// only links that are up: the kernel refuses a route through a down link (ENETDOWN) and flushes a link's
+		// routes when it goes down, so a route on a down link is not a state another process could create
+		if l := w.link(n); l != nil && l.LinkAttrs.RawFlags&syscall.IFF_RUNNING != 0 {
 			names = append(names, n)
 		}
 	}
